@@ -8,7 +8,7 @@ na = json.load(open(os.path.join(ROOT, "lib", "not_applicable.json")))
 checks = []
 for pid in ids:
     if pid not in props.PROPS or pid in na: continue
-    P = props.PROPS[pid]; eng = "+".join((["S"] if P.get("S") else []) + (["C"] if P.get("C") else []))
+    P = props.PROPS[pid]; eng = "+".join((["S"] if P.get("S") else []) + (["C"] if P.get("C") else []) + (["X"] if P.get("X") else []))
     checks.append({
         "property_id": pid,
         "quick_cmd": "./check %s --tier quick" % pid,
@@ -17,9 +17,9 @@ for pid in ids:
         "replay_cmd_template": "./check %s --replay {path}" % pid,
         "engine": eng,
         "level_claimed": {"category": "other", "design_ref": "DESIGN.md section 3 (%s)" % pid,
-            "text": "Bounded solver-based checking of the real code: " + P["explanation"] + " Bound (quick): " + P["bounds"]["quick"] + ". A pass means: for every value of the symbolic inputs inside this bound the obligation holds (z3 unsat" + (", CBMC successful with unwinding assertions" if P.get("C") else "") + "); a counterexample is replayed on the exact-rational and on the double build of the same real templates before it is reported."},
-        "level_note": "Trusted base: z3 4.8.12, g++ 12, lib/symx.hpp (term store / normal form / SMT emission, cross-checked against the raw operation log in exact rational arithmetic and against the double build on every run)" + ("; clang-14 IR, lib/ir2c.py, cbmc 6.11" if P.get("C") else "") + ". Assumed: real arithmetic (no rounding), non-zero divisors listed as side conditions, OpenMP pragmas compiled out. Outside the claim: " + P.get("out", ""),
-        "technique": "symbolic execution of the real amgcl templates at a symbolic scalar (decision-prefix path exploration) + z3 (QF_NRA/QF_LRA) on normal-form obligations" + ("; clang IR -> C -> CBMC bounded model checking with unwinding assertions" if P.get("C") else ""),
+            "text": "Bounded solver-based checking of the real code: " + P["explanation"] + " Bound (quick): " + P["bounds"]["quick"] + ". A pass means: for every value of the symbolic inputs inside this bound the obligation holds (z3 unsat" + (", CBMC successful with unwinding assertions" if P.get("C") else "") + "); a counterexample is replayed " + ("on the real code (native build, real files, AddressSanitizer)" if not P.get("S") else "on the exact-rational and on the double build of the same real templates") + " before it is reported."},
+        "level_note": ("Trusted base: z3 4.8.12, g++ 12, lib/symx.hpp (term store / normal form / SMT emission, cross-checked against the raw operation log in exact rational arithmetic and against the double build on every run)" + ("; clang-14 IR, lib/ir2c.py, cbmc 6.11" if P.get("C") else "") + ". Assumed: real arithmetic (no rounding), non-zero divisors listed as side conditions, OpenMP pragmas compiled out." if P.get("S") else "Trusted base: clang-14 -O1 IR of the wrapper, lib/irsx.py (IR interpreter and memory model, compared on every run with the native g++ build on a script of valid and truncated files), z3 5.1 bit-vector solver, the in-memory <fstream> stand-in. Assumed: see the evidence file (allocation threshold, header-field range of the dense harness).") + " Outside the claim: " + P.get("out", ""),
+        "technique": ("symbolic execution of the real amgcl templates at a symbolic scalar (decision-prefix path exploration with concolic witness points) + z3 (QF_NRA/QF_LRA) on normal-form obligations" if P.get("S") else "") + ("; clang IR -> C -> CBMC bounded model checking with unwinding assertions" if P.get("C") else "") + ("symbolic execution of the clang-14 LLVM IR of the real readers/writers by an own executor (lib/irsx.py: forking on branches, byte-precise object memory with solver-checked bounds) + z3 bit-vector queries (QF_BV); counterexample files replayed on the native build under AddressSanitizer" if P.get("X") else ""),
     })
 M = {
     "version": 1,
@@ -28,7 +28,8 @@ M = {
               "baseline_off_cmd": "cd /repo && cmake -G Ninja -B _build -DAMGCL_BUILD_TESTS=ON -DCMAKE_BUILD_TYPE=RelWithDebInfo -DCMAKE_CXX_FLAGS=-Wno-error >/dev/null && cmake --build _build && OMP_NUM_THREADS=2 ctest --test-dir _build -j8 --timeout 900",
               "source_commits": [], "add_only": True},
     "engines": [
-        {"name": "S (symx)", "path": "lib/symx.hpp, lib/hx.hpp, lib/hx_amgcl.hpp, harness/*.cpp", "serves_properties": [c["property_id"] for c in checks], "kind_free_text": "symbolic execution of the real C++ templates by instantiation at a symbolic scalar; z3 decides path feasibility and proof obligations"},
+        {"name": "S (symx)", "path": "lib/symx.hpp, lib/hx.hpp, lib/hx_amgcl.hpp, harness/*.cpp", "serves_properties": [c["property_id"] for c in checks if "S" in c["engine"]], "kind_free_text": "symbolic execution of the real C++ templates by instantiation at a symbolic scalar; z3 decides path feasibility and proof obligations"},
+        {"name": "X (irsx)", "path": "lib/irsx.py, lib/c19x.py, lib/enginex.py, cwrap/k_io.cpp, cwrap/stub_io/fstream, cwrap/h_io.c, cwrap/d_io.c", "serves_properties": [c["property_id"] for c in checks if "X" in c["engine"]], "kind_free_text": "own symbolic executor for clang-14 LLVM IR on z3 bit-vectors (fork on branches, object/offset pointers, solver-checked bounds of every access, exceptions, operator new)"},
         {"name": "C (irbmc)", "path": "lib/ir2c.py, lib/enginec.py, cwrap/*", "serves_properties": [c["property_id"] for c in checks if "C" in c["engine"]], "kind_free_text": "clang-14 IR of extern-C wrappers around the real kernels -> C -> CBMC (symbolic CRS structure)"},
     ],
     "checks": checks,
